@@ -96,8 +96,46 @@ Theorem C04_ret_is_conjugated_hardware : forall c i s,
   end.
 Proof. exact ret_is_conjugated_hardware. Qed.
 
-(* the 16-bit and immediate PUSH forms, POP r/m and CALL r/m64 are decided by the differential run
-   and the golden known-finding witnesses only. *)
+(* PUSH imm32 / PUSH imm8 (sign-extended to 64 bits): the emulator's push of the sign-extended value *)
+Theorem C04_push_imm : forall c i s, Inv (mem s) ->
+  (i_code i = C_Pushq_imm32 -> i_op0_kind i = OK_Immediate32to64 -> 0 <= i_immediate32to64 i < 2 ^ 64 ->
+     (exists s', emu_push 8 (i_immediate32to64 i) s = Some s' /\ instr_pushq_imm64 c i s = (Ok tt, s')) \/
+     (emu_push 8 (i_immediate32to64 i) s = None /\ exists e, instr_pushq_imm64 c i s = (Err e, s))) /\
+  (i_code i = C_Pushq_imm8 -> i_op0_kind i = OK_Immediate8to64 -> 0 <= i_immediate8to64 i < 2 ^ 64 ->
+     (exists s', emu_push 8 (i_immediate8to64 i) s = Some s' /\ instr_pushq_imm8 c i s = (Ok tt, s')) \/
+     (emu_push 8 (i_immediate8to64 i) s = None /\ exists e, instr_pushq_imm8 c i s = (Err e, s))).
+Proof.
+  intros c i s HI. split.
+  - exact (pushq_imm32_exact c i s HI).
+  - exact (pushq_imm8_exact c i s HI).
+Qed.
+
+(* the 16-bit forms (operand-size prefix): two bytes at the old RSP / at RSP+2, RSP moves by 2, and a POP replaces
+   only the low 16 bits of its destination.  emu_push / emu_pop are conjugate to the hardware push / pop for every
+   size (C04_push_is_hardware_conjugated, C04_pop_is_hardware_conjugated are stated for all n). *)
+Theorem C04_push_r16 : forall c i s, wf_regs s -> Inv (mem s) -> is_gpr16 (i_op0_register i) = true ->
+  i_code i = C_Push_r16 ->
+  let v := rf_read (regs s) (i_op0_register i) in
+  (exists s', emu_push 2 v s = Some s' /\ instr_push_r16 c i s = (Ok tt, s')) \/
+  (emu_push 2 v s = None /\ exists e, instr_push_r16 c i s = (Err e, s)).
+Proof. exact push_r16_exact. Qed.
+
+Theorem C04_pop_r16 : forall c i s, wf_regs s -> Inv (mem s) -> is_gpr16 (i_op0_register i) = true ->
+  i_code i = C_Pop_r16 ->
+  match emu_pop 2 s with
+  | Some (v, _) =>
+      instr_pop_r16 c i s = (Ok tt, set_regs s (upd (rf_write (regs s) (i_op0_register i) v) RSP ((regs s RSP + 2) mod 2 ^ 64)))
+  | None => exists e, instr_pop_r16 c i s = (Err e, s)
+  end.
+Proof. exact pop_r16_exact. Qed.
+
+Theorem C04_push_imm16 : forall c i s, Inv (mem s) -> i_code i = C_Push_imm16 -> 0 <= i_immediate16 i < 2 ^ 16 ->
+  let v := i_immediate16 i in
+  (exists s', emu_push 2 v s = Some s' /\ instr_push_imm16 c i s = (Ok tt, s')) \/
+  (emu_push 2 v s = None /\ exists e, instr_push_imm16 c i s = (Err e, s)).
+Proof. exact push_imm16_exact. Qed.
+
+(* PUSH r/m16 is decided by the differential run and the golden known-finding witnesses only. *)
 
 Print Assumptions cond_matches_sdm.
 Print Assumptions C04_push_is_hardware_conjugated.
@@ -108,3 +146,7 @@ Print Assumptions C04_call_rel32.
 Print Assumptions C04_call_rel32_is_conjugated_hardware.
 Print Assumptions C04_ret.
 Print Assumptions C04_ret_is_conjugated_hardware.
+Print Assumptions C04_push_imm.
+Print Assumptions C04_push_r16.
+Print Assumptions C04_pop_r16.
+Print Assumptions C04_push_imm16.
